@@ -2,9 +2,9 @@
 
 Spec: spec/ExcelValues.tla (value universe, coercions, every operator as a
 total function), spec/Operators.tla (enumerator over Ops x Pool x Pool and,
-in the thorough tier, Pool^3; laws Total, ErrLeftFirst, DivZero, Coercion,
-Trichotomy, TypeOrder, CaseBlind, ConcatRender, Algebra, Transitive checked by
-TLC on the definitions).
+in the thorough tier, Pool^3; laws Total, Closed, ErrLeftFirst, DivZero,
+Coercion, WordIsText, BeyondIsText, Overflow, Trichotomy, TypeOrder, CaseBlind,
+ConcatRender, Algebra, Transitive checked by TLC on the definitions).
 Binding: every state visited by TLC is exported (operands + defined result)
 and evaluated on the real code three ways: directly through the function
 returned by build_operator_operand_fixup, with the operands in cells
@@ -17,6 +17,20 @@ The pool holds text that spells a logical ("TRUE", "true", "False", " FALSE";
 the sampled pool: both words in random case, with and without spaces around):
 text to every operator, so #VALUE! to arithmetic (Operators!ArithS, law
 WordIsText), while the logical TRUE counts as 1.
+The pool holds numerals far from 1 as text ("1e300", "-2.5E+300", "1e-300",
+"1e400"; the sampled pool: random mantissas with exponents up to 999).  A
+number is a double: text that spells a numeral no double can hold is other
+text (#VALUE! to arithmetic, Operators!BeyondIsText), and arithmetic whose
+exact result lies at 1E309 or beyond is #NUM! (Operators!BigArith, law
+Overflow); an infinity, a not-a-number or a Python int of hundreds of digits
+is not a number of the universe anywhere.  Number operands stay of moderate
+magnitude, as the statement says; the large magnitudes come in as text only.
+The pool holds text with digits which are not ASCII digits (ARABIC-INDIC DIGIT
+THREE, "1" + SUPERSCRIPT TWO, two FULLWIDTH digits; the sampled pool: random
+ones from seven Unicode digit blocks, alone and mixed with ASCII): other text,
+#VALUE! to arithmetic, unchanged by &, text to the comparisons
+(Operators!ForeignIsText).  Python's int(), float() and str.isdigit() accept
+many of them.
 The pool holds text spelled like an error value ("#REF!", "#N/A", "#EMPTY!"):
 text to Excel, the error value to pycel (one representation).  The spec
 exports, next to the defined result, the result under that reading
@@ -316,7 +330,7 @@ class Binder:
         self.v, self.rnd = v, rnd
         self.fix = build_operator_operand_fixup(lambda *a: None)
         self.skipped = {'num': 0, 'bool': 0, 'text': 0, 'any': 0}
-        self.by_mode = {'direct': 0, 'cells': 0, 'literal': 0}
+        self.by_mode = {'direct': 0, 'cells': 0, 'literal': 0, 'closed': 0}
 
     def judge(self, mode, vec, got, extra):
         v = self.v
@@ -344,6 +358,38 @@ class Binder:
             else:
                 v.violation(desc, case)
 
+    def closed(self, vec, got, variant):
+        """Operators!Closed on the code: what an operator returned is again an
+        operand of the universe: x = x is TRUE, x <> x is FALSE, exactly one
+        of x < 0, x = 0, x > 0 holds and x & "" is text (not so for a
+        not-a-number); an error value comes back from all of them."""
+        if isinstance(got, BaseException) or (
+                isinstance(got, str) and (got in ERRORS or got == '#EMPTY!')
+                and vec['r'][0] != 'E'):
+            return        # judged already / finding C10_r3_2: text spelled like an error
+        fix = self.fix
+        seen = [direct(fix, op, got, y) for op, y in
+                (('=', got), ('<>', got), ('<', 0), ('=', 0), ('>', 0), ('&', ''))]
+        if isinstance(got, str) and got in ERRORS:
+            ok = all(isinstance(x, str) and x == got for x in seen)
+            want = f'{got} from all'
+        else:
+            ok = (seen[0] is True and seen[1] is False
+                  and all(is_bool(x) for x in seen[2:5]) and sum(map(bool, seen[2:5])) == 1
+                  and isinstance(seen[5], str) and seen[5] not in ERRORS)
+            want = 'TRUE, FALSE, exactly one TRUE of three, a text'
+        self.v.case(('closed', vec['op'], json.dumps(vec['a']), json.dumps(vec['b']), variant))
+        self.by_mode['closed'] += 1
+        if not ok:
+            opnd = show(vec['a']) if vec['op'] in ('u-', '%') else \
+                f"{show(vec['a'])} {vec['op']} {show(vec['b'])}"
+            self.v.violation(
+                f"[direct] x = the result of {opnd}, which is {brief(got)}: x=x, x<>x, x<0, "
+                f"x=0, x>0, x&\"\" give {', '.join(brief(x, 40) for x in seen)}; "
+                f"defined: {want}",
+                dict(mode='closed', op=vec['op'], a=vec['a'], b=vec['b'],
+                     got=brief(got, 200), variant=variant))
+
     def pairs(self, vectors, formula_share=1.0):
         v = self.v
         for vec in vectors:
@@ -359,8 +405,10 @@ class Binder:
                 for ib, pb in enumerate(pbs):
                     if len(pas) == 2 and len(pbs) == 2 and ia != ib:
                         continue          # (int, int) and (float, float)
-                    self.judge('direct', vec, direct(self.fix, vec['op'], pa, pb),
-                               dict(variant=f'{type(pa).__name__},{type(pb).__name__}'))
+                    got = direct(self.fix, vec['op'], pa, pb)
+                    variant = f'{type(pa).__name__},{type(pb).__name__}'
+                    self.judge('direct', vec, got, dict(variant=variant))
+                    self.closed(vec, got, variant)
         # 2./3. through compiled formulas, many per workbook
         todo = vectors if formula_share >= 1.0 else \
             [x for x in vectors if self.rnd.random() < formula_share]
@@ -557,12 +605,14 @@ def tla_value(val):
     raise ValueError(val)
 
 
-def sampled_pool(rnd, n_num=13, n_numtext=9, n_miss=6, n_word=7, n_logical=3):
+def sampled_pool(rnd, n_num=12, n_numtext=8, n_miss=5, n_word=6, n_logical=3):
     """numbers of moderate magnitude with a finite decimal spelling, numeric
     text of the strict grammar, near misses, words in mixed case (letters
     that cannot form a month name, AM/PM, TRUE/FALSE), text that spells a
-    logical in mixed case (with spaces around it or not), logicals, blank,
-    two errors"""
+    logical in mixed case (with spaces around it or not), numerals far from 1
+    as text (one that squares to more than any number, one tiny, one beyond
+    every number, one anywhere up to E999), three texts with digits which
+    are not ASCII digits, logicals, blank, two errors"""
     def num():
         kind = rnd.randrange(4)
         if kind == 0:
@@ -610,6 +660,39 @@ def sampled_pool(rnd, n_num=13, n_numtext=9, n_miss=6, n_word=7, n_logical=3):
         return S(' ' * rnd.randrange(3) * (rnd.random() < 0.3) + s
                  + ' ' * rnd.randrange(3) * (rnd.random() < 0.3))
 
+    def far_numeral(lo, hi):
+        """a numeral with a decimal exponent in lo..hi (both of one sign)"""
+        m = str(rnd.randint(1, 9999))
+        if rnd.random() < 0.5:
+            cut = rnd.randrange(len(m) + 1)
+            m = m[:cut] + '.' + m[cut:]
+            if m == '.':
+                m = '.5'
+        e = rnd.randint(lo, hi)
+        return S(rnd.choice(['', '', '-', '+']) + m + rnd.choice('eE')
+                 + ('-' if e < 0 else rnd.choice(['', '+'])) + str(abs(e)))
+
+    foreign = ([0xB2, 0xB3, 0xB9, 0x2070] + list(range(0x2074, 0x207A))
+               + [b + i for b in (0x660, 0x6F0, 0x966, 0x2080, 0xFF10) for i in range(10)])
+
+    def foreign_digits():
+        """digits which are not ASCII digits, alone or within an ASCII numeral"""
+        kind = rnd.randrange(3)
+        if kind == 0:       # one script, as int() / float() read it
+            base = rnd.choice((0x660, 0x6F0, 0x966, 0xFF10))
+            s = ''.join(chr(base + rnd.randrange(10)) for _ in range(rnd.randint(1, 3)))
+            if rnd.random() < 0.3:
+                s = rnd.choice('+-') + s
+            if rnd.random() < 0.3:
+                s += '.' + chr(base + rnd.randrange(10))
+        elif kind == 1:     # an ASCII numeral with one of them in it
+            s = list(str(rnd.randint(0, 999)))
+            s.insert(rnd.randrange(len(s) + 1), chr(rnd.choice(foreign)))
+            s = ''.join(s)
+        else:
+            s = ''.join(chr(rnd.choice(foreign)) for _ in range(rnd.randint(1, 2)))
+        return S(s)
+
     pool, seen = [], set()
 
     def add(val):
@@ -626,6 +709,13 @@ def sampled_pool(rnd, n_num=13, n_numtext=9, n_miss=6, n_word=7, n_logical=3):
             tries += 1
     for s in rnd.sample(misses, n_miss):
         add(S(s))
+    # (the numeral's own exponent: the mantissa adds up to four digits)
+    add(far_numeral(160, 300))
+    add(far_numeral(-300, -20))
+    add(far_numeral(320, 999))
+    add(far_numeral(10, 999))
+    for _ in range(3):
+        add(foreign_digits())
     add(['B', 1])
     add(['B', 0])
     add(['Z'])
@@ -692,7 +782,8 @@ def run(tier, seed):
              'modes are: the fixup function itself, =A1 op B1 with the operands '
              'in cells, =a op b with literal operands (plain, and with zero-padded '
              'numerals / lower-case logicals); unmodelled (U) results '
-             'are checked for totality only',
+             'are checked for totality only; closed: every value the fixup function '
+             'returned is fed back as an operand (x=x, x<>x, x<0, x=0, x>0, x&"")',
         known_finding_cases={k: len(c) for k, c in v.known.items()},
         not_judged=['0^0 (Excel #NUM!, pycel 1)',
                     'order of two unequal texts unless both consist of letters, '
@@ -702,13 +793,21 @@ def run(tier, seed):
                     'rendering of non-terminating fractions and of magnitudes '
                     'below 1E-4 in &',
                     'powers whose magnitude cannot be bounded away from 1.8E308 '
-                    'by digit counting (e.g. 2^400 is accepted as a number)'])
+                    'by digit counting (e.g. 2^400 is accepted as a number)',
+                    'numerals as text from 1E308 up to 1E309 (doubles which are not '
+                    'numbers of Excel) and below 1E-307; results in that band; sums '
+                    'and powers of numbers beyond the exact fragment (magnitude only: '
+                    'a number or #NUM!)',
+                    'number operands beyond moderate magnitude (1E308*10: the '
+                    'statement restricts them; the same overflow is reached through '
+                    'numeric text)'])
     v.extra.update(extra)
     v.assumptions = ['TLC evaluates the ExcelValues definitions correctly',
                      'numbers compared with 1e-12 relative tolerance against the '
                      'exact rational; floats fed to the code are the doubles '
                      'nearest to the pool decimals',
-                     'text restricted to printable ASCII']
+                     'text restricted to printable ASCII and the digits of '
+                     'seven other Unicode blocks']
     return v.finish()
 
 
